@@ -348,7 +348,6 @@ impl<L: ChainListener> ChainTracker<L> {
                     supplied_prev_headers.0.block_hash().to_string()
                 ));
             }
-            self.headers.pop_front();
         };
 
         let mut prev_headers = supplied_prev_headers;
@@ -378,6 +377,11 @@ impl<L: ChainListener> ChainTracker<L> {
                 )),
             ProofType::ExternalBlock() => self.notify_listeners_remove(None, tip_block_hash),
         };
+
+        // The removal is valid: only now forget the header we are going back to, so that a
+        // rejected removal leaves the remembered headers untouched.
+        // (Nothing to pop in the deep reorg case.)
+        self.headers.pop_front();
 
         info!("removed block {}: {}", self.height, &self.tip.0.block_hash());
         mem::swap(&mut self.tip, &mut prev_headers);
